@@ -121,7 +121,12 @@ def run(pid, tier):
                 n_examples += 1
     tstep = 9 if tier == 'quick' else 2
     tabs = tables[::tstep]
-    for x in tabs:
+    # ids are free strings: the abstract ids of the tables are written in four styles (plain, with a leading '#', numeric-looking, with a blank)
+    STYLES = ['%s', '#%s', '10%s', '%s 1']
+    for k, x in enumerate(tabs):
+        style = STYLES[k % len(STYLES)]
+        for row in x['jobs'] + x['vehicles']:
+            row['id'] = style % row['id']
         jt, vt = csv_text(x['jobs'], x['vehicles'])
         cases.append({'id': 'csv%d' % x['c'], 'kind': 'csv', 'jobs': jt, 'vehicles': vt})
     fc, fr = os.path.join(d, 'cases.ndjson'), os.path.join(d, 'results.ndjson')
@@ -175,28 +180,32 @@ def run(pid, tier):
         details[r['id']] = r
     # canaries
     cans = []
-    b = next(r for r in recs if r['kind'] == 'init' and r['status'] == 'ok' and any(len([a for a in t['acts'] if a['type'] in ('pickup', 'delivery', 'service')]) >= 2 for t in r['S2']['tours']))
-    def swap(r):
-        t = next(t for t in r['S2']['tours'] if len([a for a in t['acts'] if a['type'] in ('pickup', 'delivery', 'service')]) >= 2)
-        ix = [i for i, a in enumerate(t['acts']) if a['type'] in ('pickup', 'delivery', 'service')]
-        t['acts'][ix[0]], t['acts'][ix[1]] = t['acts'][ix[1]], t['acts'][ix[0]]
-        return t['acts'][ix[0]] != t['acts'][ix[1]]
-    c = copy.deepcopy(b)
-    if swap(c): cans.append((c, 'InitSameOrder'))
-    c = copy.deepcopy(b); next(a for t in c['S2']['tours'] for a in t['acts'] if a['type'] in ('pickup', 'delivery', 'service'))['tag'] = 'other'; cans.append((c, 'InitSameActivities'))
-    c = copy.deepcopy(b); c['S2']['unassigned'] = c['S2']['unassigned'] + ['ghost']; cans.append((c, 'InitSameUnassigned'))
-    c = copy.deepcopy(b); c['S2']['tours'][0]['shift'] += 1; cans.append((c, 'InitSameJobsPerShift'))
-    c = copy.deepcopy(b); c['status'] = 'init-err'; cans.append((c, 'InitReadable'))
-    g = next(r for r in recs if r['kind'] == 'doc' and r['status'] == 'ok')
-    c = copy.deepcopy(g); c['fixpoint'] = False; cans.append((c, 'DocFixpoint'))
-    c = copy.deepcopy(g); c['firstPassSame'] = False; cans.append((c, 'DocKeptByFirstPass'))
-    c = copy.deepcopy(g); c['status'] = 'parse-err'; cans.append((c, 'DocParses'))
-    c = copy.deepcopy(g); c['status'] = 'panic'; cans.append((c, 'NoPanic'))
-    v = next(r for r in recs if r['kind'] == 'csv' and r['status'] == 'ok' and r['valid'] and any(t['hasDemand'] for j in r['P']['jobs'] for t in j['tasks']))
-    c = copy.deepcopy(v); next(t for j in c['P']['jobs'] for t in j['tasks'] if t['hasDemand'])['demand'] += 1; cans.append((c, 'CsvJobsAsTables'))
-    c = copy.deepcopy(v); c['P']['vehicles'][0]['cap'] += 1; cans.append((c, 'CsvVehiclesAsTables'))
-    c = copy.deepcopy(v); c['valid'] = False; cans.append((c, 'CsvValid'))
-    c = copy.deepcopy(v); c['status'] = 'import-err'; cans.append((c, 'CsvImports'))
+    can_skip = False
+    try:
+        b = next(r for r in recs if r['kind'] == 'init' and r['status'] == 'ok' and any(len([a for a in t['acts'] if a['type'] in ('pickup', 'delivery', 'service')]) >= 2 for t in r['S2']['tours']))
+        def swap(r):
+            t = next(t for t in r['S2']['tours'] if len([a for a in t['acts'] if a['type'] in ('pickup', 'delivery', 'service')]) >= 2)
+            ix = [i for i, a in enumerate(t['acts']) if a['type'] in ('pickup', 'delivery', 'service')]
+            t['acts'][ix[0]], t['acts'][ix[1]] = t['acts'][ix[1]], t['acts'][ix[0]]
+            return t['acts'][ix[0]] != t['acts'][ix[1]]
+        c = copy.deepcopy(b)
+        if swap(c): cans.append((c, 'InitSameOrder'))
+        c = copy.deepcopy(b); next(a for t in c['S2']['tours'] for a in t['acts'] if a['type'] in ('pickup', 'delivery', 'service'))['tag'] = 'other'; cans.append((c, 'InitSameActivities'))
+        c = copy.deepcopy(b); c['S2']['unassigned'] = c['S2']['unassigned'] + ['ghost']; cans.append((c, 'InitSameUnassigned'))
+        c = copy.deepcopy(b); c['S2']['tours'][0]['shift'] += 1; cans.append((c, 'InitSameJobsPerShift'))
+        c = copy.deepcopy(b); c['status'] = 'init-err'; cans.append((c, 'InitReadable'))
+        g = next(r for r in recs if r['kind'] == 'doc' and r['status'] == 'ok')
+        c = copy.deepcopy(g); c['fixpoint'] = False; cans.append((c, 'DocFixpoint'))
+        c = copy.deepcopy(g); c['firstPassSame'] = False; cans.append((c, 'DocKeptByFirstPass'))
+        c = copy.deepcopy(g); c['status'] = 'parse-err'; cans.append((c, 'DocParses'))
+        c = copy.deepcopy(g); c['status'] = 'panic'; cans.append((c, 'NoPanic'))
+        v = next(r for r in recs if r['kind'] == 'csv' and r['status'] == 'ok' and r['valid'] and any(t['hasDemand'] for j in r['P']['jobs'] for t in j['tasks']))
+        c = copy.deepcopy(v); next(t for j in c['P']['jobs'] for t in j['tasks'] if t['hasDemand'])['demand'] += 1; cans.append((c, 'CsvJobsAsTables'))
+        c = copy.deepcopy(v); c['P']['vehicles'][0]['cap'] += 1; cans.append((c, 'CsvVehiclesAsTables'))
+        c = copy.deepcopy(v); c['valid'] = False; cans.append((c, 'CsvValid'))
+        c = copy.deepcopy(v); c['status'] = 'import-err'; cans.append((c, 'CsvImports'))
+    except StopIteration:
+        can_skip = True          # no record to corrupt (the code under test answered nothing of that kind): judged below
     fj = os.path.join(d, 'judge.ndjson')
     common.write_ndjson(fj, recs + [c[0] for c in cans])
     jr = common.tlc('JudgeRoundTrip', env={'RECS': fj}, workers=1, name=pid + '-judge', timeout=6000, xmx='8g')
@@ -227,6 +236,8 @@ def run(pid, tier):
         verdict.add('C11/%s/%s' % (name, q), '%s: status %s %s' % (rid, r['status'], (r.get('error') or r.get('fixpointDiff') or r.get('firstPassDiff') or json.dumps(r.get('valid')) or '')[:200]),
                     {'input': by_id[rid] if r['kind'] != 'init' else {k: init_by_id[rid][k] for k in ('id', 'seed', 'problem', 'matrices', 'config')}, 'result': r})
     rc = verdict.finish()
+    if can_skip and rc == 0:
+        raise ToolError('no base record for the vacuity canaries and no violation reported')
     kinds = collections.Counter((r['kind'], by_id[r['id']].get('what', '')) for r in recs)
     cov = {'states': jr.distinct, 'transitions': jr.generated, 'traces_validated_against_impl': len(recs), 'evaluations': len(recs),
            'distinct_nontrivial': sum(1 for r in recs if r['kind'] == 'init' and r['status'] == 'ok' and r['S']['tours']),
